@@ -27,6 +27,8 @@ Definition wf_case (c : case) : bool :=
   | ZatOptAdd a b _ | ZatOptSub a b _ => vopt vzat a && vzat b
   | ZatMulU64 a n _ | ZatMulUsize a n _ => vzat a && in_u64 n
   | ZatSum l _ => forallb vzat l
+  | ZatSumRep v _ _ => vzat v
+  | ZbSumRep v _ _ => vzb v
   | ZatDiv a d _ | ZatDivRem a d _ => vzat a && (0 <? d) && in_u64 d
   end.
 
